@@ -222,7 +222,12 @@ fn emit_nodes(cx: &mut Ctx, out: &mut String, nodes: &[Node], ind: usize) {
                     .iter()
                     .find(|x| &x.name == f)
                     .unwrap_or_else(|| panic!("unknown function {f}"));
-                let arg = if fd.param {
+                let arg = if fd.ptr {
+                    cx.tmp += 1;
+                    let t = cx.tmp;
+                    let _ = writeln!(out, "{pad}var q{t} = 1u;");
+                    format!("&q{t}")
+                } else if fd.param {
                     cx.tmp += 1;
                     let t = cx.tmp;
                     let _ = writeln!(out, "{pad}var a{t}_0 = 1u;");
@@ -413,7 +418,7 @@ pub fn concretise(s: &Shader) -> String {
     for f in &s.functions {
         let mut body = String::new();
         emit_nodes(&mut cx, &mut body, &f.body, 1);
-        let p = if f.param { "p: u32" } else { "" };
+        let p = if f.ptr { "p: ptr<function, u32>" } else if f.param { "p: u32" } else { "" };
         if f.ret {
             let _ = write!(out, "fn {}({p}) -> u32 {{\n{body}    return 0u;\n}}\n", f.name);
         } else {
